@@ -56,6 +56,7 @@ def _evaluate(mod, cases, outs, tag):
             raise
         # another check rebuilt Generated/Tables.vo in between: rebuild this runner and evaluate again
         with fw.BuildLock():
+            fw.regenerate_tables()
             fw.make(mod.RUNNER_TARGETS)
         res = fw.eval_cases(mod.ID, mod.RUNNER, mod.CASE_TYPE, terms, tag=tag)
     back = {"sub": {}}
